@@ -10,6 +10,11 @@ Comps == {A, B, AB}
 (* ab vs ab/a/b: only one of each pair can be stored)                        *)
 BfsNames == {<<A>>, <<AB>>, <<B, A>>, <<B, AB>>, <<A, B>>, <<B, B, A>>, <<B, B, B>>, <<AB, A, B>>}
 SmallNames == {<<A>>, <<AB>>, <<B, A>>, <<B, AB>>, <<A, B>>, <<B, B, A>>}
+(* the runs with Copy: three names (a and a/b conflict), any of them may be   *)
+(* tried as an absent source                                                 *)
+TinyNames == {<<A>>, <<B, A>>, <<A, B>>}
+(* simulation: absent copy sources are tried for these names *)
+SimMiss == {<<A>>, <<B, AB>>, <<AB, A, B>>}
 
 (* simulation: every name of depth <= 3 over the three components *)
 SimNames == {<<x>> : x \in Comps} \cup {<<x, y>> : x, y \in Comps} \cup {<<x, y, z>> : x, y, z \in Comps}
@@ -18,6 +23,7 @@ AllPrefixes(N) == UNION {{SubSeq(NameStr(n), 1, k) : k \in 0..Len(NameStr(n))} :
 Misses == {<<"c">>, <<"b", "/", "c">>, <<"/">>, <<"a", "/", "/">>, <<"a", "b", "a">>}
 BfsPrefixes == AllPrefixes(BfsNames) \cup Misses
 SmallPrefixes == AllPrefixes(SmallNames) \cup Misses
+TinyPrefixes == AllPrefixes(TinyNames) \cup {<<"c">>}
 SimPrefixes == AllPrefixes(SimNames) \cup Misses \cup {NameStr(n) \o <<"/">> : n \in SimNames}
 
 (* sanity of the vocabulary itself *)
